@@ -74,3 +74,9 @@ META["C12"] = {
     "note": "Requests are synthesised with httptest (ProtoMajor/TLS state set directly) for the matrix; TLS and HTTP/3 transports themselves are exercised by C01, not here.",
     "technique": "bounded-exhaustive enumeration + property-based testing (rapid) against a reference grammar/model, black-box sample over real sockets",
 }
+
+META["C13"] = {
+    "text": "The reference client's wire examiners are checked in both directions: independent spec-conformant renderers of the four wire forms must draw no feedback for any generated error/metadata (directly and through examineWireDetails in a synthetic trace), each of ~70 catalogued single malformations must draw feedback naming its class, everything the in-process reference server emits (incl. its raw gRPC/gRPC-Web trailer encoders) must pass when fetched by the exported reference client over all protocols/codecs/stream types, and arbitrary/mutated bytes must never crash an examiner (rapid + native fuzz). Exploration by seeded generation with shrinking.",
+    "note": "Trusts the independent renderers written from the Connect/gRPC specs; the malformation catalogue covers the classes the statement names, one operator at a time.",
+    "technique": "property-based testing (rapid): positive and negative oracle over independent renderers, end-to-end differential check, native fuzzing for crash-freedom",
+}
